@@ -9,6 +9,8 @@
  * (i-th element of an Array/List), `<id>.k<i>` / `<id>.v<i>` (key / value of the i-th entry, in key order, of a Table/Tree)):
  *   int <id> <route> <v> | str <id> <route> <text|-> | tup <id> <route> <id>* | ref <id> <route> <target>
  *   arr|lst <id> <route> <ety> <scalar>* | tab|tre <id> <route> <kty> <vty> (<k> <v>)*
+ *                                    ety / vty: Int, String, RT<k>, Tuple (literal `t:<id>,<id>..`: the handles of its items,
+ *                                    live Ints / Strings that are not on the heap) and Array (literal `a:<int>,<int>..`: an Array of Int)
  *   rtt <id> <route> <k> <size>      new(Type, "RT<k>", size)          rto <id> <route> <k> <w>   object of run-time type k
  *   sty <id> <Name>                  a built-in static Type object      cpy <id> <src>             copy(src)
  *   obs <target>
@@ -17,7 +19,8 @@
  *   iter <id> fwd|back | values <id> | view slice <id> <k> | view reverse|enumerate|filter|map <id> | view zip <a> <b>
  *   view range|hrange <a> <b> <c>
  *   box <id> <route> <target|->      a Box (src/Pointer.c): its destructor `del`s what it points to; new* routes construct it
- *                                    from <target> (a Ref / Box argument is dereferenced by Box_Assign), alloc* routes give NULL
+ *                                    from <target> (a Ref / Box argument is dereferenced by Box_Assign), alloc* routes give NULL,
+ *                                    `stack` is `$(Box, target)` (the pointer as it is; not a Box or Ref: Box_Show follows it)
  *   own <id> <target|->              ref(box, target): re-point a Box (this is how rings and chains are built)
  *   sweep <id>* [; <id>*]            a collector run (GC_Sweep) in which exactly these objects are found unreachable; the ids
  *                                    after `;` come first on the pending list, in that order, the others follow in birth order
@@ -183,17 +186,66 @@ static int parse_ety(const char* w, var* ty, int* rtk) {
   *rtk = -1;
   if (!strcmp(w, "Int")) { *ty = Int; return 1; }
   if (!strcmp(w, "String")) { *ty = String; return 1; }
+  if (!strcmp(w, "Tuple")) { *ty = Tuple; return 1; }
+  if (!strcmp(w, "Array")) { *ty = Array; return 1; }
   if (w[0] == 'R' && w[1] == 'T') { long k; if (!parse_nat(w + 2, &k)) return 0; *rtk = (int)k;
     if (k < MAXRT && rt_defined[k] && is_live(id_of(rt_type[k]))) { *ty = rt_type[k]; return 1; } return -1; }
   return 0;
 }
-static int scalar_ok(var ty, const char* w) { long v; return ty == String ? is_text(w) : parse_int(w, &v); }
+/* `<tag>:` followed by comma-separated numbers (possibly none); returns the count or -1 */
+static int parse_tagged(const char* w, char tag, int is_nat, long* out, int max) {
+  if (w[0] != tag || w[1] != ':') return -1;
+  const char* p = w + 2; int n = 0;
+  if (!*p) return 0;
+  for (;;) {
+    char num[32]; size_t k = 0;
+    while (*p && *p != ',' && k < sizeof num - 1) num[k++] = *p++;
+    num[k] = 0; long v;
+    if (*p && *p != ',') return -1;
+    if (is_nat ? !parse_nat(num, &v) : !parse_int(num, &v)) return -1;
+    if (n < max) out[n] = v; n++;
+    if (!*p) break;
+    p++; if (!*p) return -1;
+  }
+  return n;
+}
+static int scalar_ok(var ty, const char* w) {
+  long v, buf[64];
+  if (ty == String) return is_text(w);
+  if (ty == Tuple) return parse_tagged(w, 't', 1, buf, 64) >= 0;
+  if (ty == Array) return parse_tagged(w, 'a', 0, buf, 64) >= 0;
+  return parse_int(w, &v);
+}
+static int usable_item(int id);
+/* can be an item of an embedded Tuple: a live Int or String that is not on the heap and that no live Box owns */
+static int fixed_item(int id) {
+  return id >= 0 && id < MAXH && usable_item(id) && meta[id].ecls != AllocHeap && (meta[id].kind == K_INT || meta[id].kind == K_STR)
+      && !(meta[id].kind == K_STR && ((struct String*)meta[id].addr)->val == NULL);
+}
+/* a literal that can be stored (model: St.storable) */
+static int storable(var ty, const char* w) {
+  if (ty != Tuple) return 1;
+  long it[64]; int n = parse_tagged(w, 't', 1, it, 64);
+  if (n < 0 || n > 6) return 0;
+  for (int k = 0; k < n; k++) if (it[k] >= MAXH || !fixed_item((int)it[k])) return 0;
+  return 1;
+}
 
 /* ------------------------------------------------------------------------------------------------------ dumps */
 static char* dump_scalar(char* o, char* end, var x) {
   var ty = type_of(x);
   if (ty == Int) o += snprintf(o, end - o, "i%ld", (long)c_int(x));
   else if (ty == String) { char* v = ((struct String*)x)->val; o += snprintf(o, end - o, "s%s", v ? v : "!freed"); }
+  else if (ty == Tuple) {        /* an embedded Tuple: the ids of its items (`items` NULL: poisoned after its destructor freed them) */
+    struct Tuple* t = x;
+    if (!t->items) o += snprintf(o, end - o, "t!freed");
+    else { o += snprintf(o, end - o, "t["); for (size_t i = 0; t->items[i] != Terminal; i++) o += snprintf(o, end - o, i ? ",%d" : "%d", id_of(t->items[i])); o += snprintf(o, end - o, "]"); }
+  }
+  else if (ty == Array) {        /* an embedded Array of Int */
+    struct Array* a = x;
+    if (!a->data && a->nitems) o += snprintf(o, end - o, "a!freed");
+    else { o += snprintf(o, end - o, "a["); for (size_t i = 0; i < a->nitems; i++) o += snprintf(o, end - o, i ? ",%ld" : "%ld", (long)c_int(get(x, $I(i)))); o += snprintf(o, end - o, "]"); }
+  }
   else o += snprintf(o, end - o, "p%ld", (long)*(int64_t*)x);
   return o;
 }
@@ -325,7 +377,7 @@ static void describe(char* o, char* end, Target t) {
     if (!e) { snprintf(o, end - o, "gone"); return; }
     o += snprintf(o, end - o, "ty=%s cls=%s reg=- live=1 sz=%zu cap=%zu v=", ty_name(e), cls_name(cls_of(e)),
                   magic_ok(e) ? size(type_of(e)) : (size_t)0, elem_cap(t));
-    if (type_of(e) == String && ((struct String*)e)->val == NULL) snprintf(o, end - o, "s!freed"); else dump_scalar(o, end, e);
+    dump_scalar(o, end, e);
   }
 }
 
@@ -388,6 +440,12 @@ static void birth_stack_ref(char** lines, size_t n, size_t i, int id, var target
   exec(lines, n, i + 1);
   meta[id].live = 0; tab[id] = NULL;
 }
+static void birth_stack_box(char** lines, size_t n, size_t i, int id, int target) {
+  var x = $(Box, target >= 0 ? meta[target].addr : NULL);
+  new_handle(id, R_STACK, K_BOX, x, Box, -1, sizeof(struct Box)); meta[id].owns = target; report_birth(id);
+  exec(lines, n, i + 1);
+  meta[id].live = 0; tab[id] = NULL;
+}
 static void birth_stack_tup(char** lines, size_t n, size_t i, int id, var* it, int cnt) {
   var x = NULL;
   switch (cnt) {
@@ -408,6 +466,24 @@ static void birth_stack_tup(char** lines, size_t n, size_t i, int id, var* it, i
 static void with_scalar(var ty, const char* w, void (*f)(var, var), var cont) {
   if (ty == Int) { long v; parse_int(w, &v); f(cont, $I(v)); }
   else if (ty == String) { char b[72]; snprintf(b, sizeof b, "%s", text_of(w)); f(cont, $S(b)); }
+  else if (ty == Tuple) {       /* assign(slot, tuple(items..)): Tuple_Assign copies the pointers into a block of the slot's own */
+    long id[8]; int n = parse_tagged(w, 't', 1, id, 6); var it[6];
+    for (int k = 0; k < n && k < 6; k++) it[k] = meta[id[k]].addr;
+    switch (n) {
+      case 0: f(cont, tuple()); break;
+      case 1: f(cont, tuple(it[0])); break;
+      case 2: f(cont, tuple(it[0], it[1])); break;
+      case 3: f(cont, tuple(it[0], it[1], it[2])); break;
+      case 4: f(cont, tuple(it[0], it[1], it[2], it[3])); break;
+      case 5: f(cont, tuple(it[0], it[1], it[2], it[3], it[4])); break;
+      default: f(cont, tuple(it[0], it[1], it[2], it[3], it[4], it[5])); break;
+    }
+  }
+  else if (ty == Array) {       /* assign(slot, array of Int): Array_Assign copies the elements into a store of the slot's own */
+    long v[64]; int n = parse_tagged(w, 'a', 0, v, 64);
+    var o = new_raw(Array, Int); for (int k = 0; k < n && k < 64; k++) push(o, $I(v[k]));
+    f(cont, o); del_raw(o);
+  }
   else { long v; parse_int(w, &v); var o = new_raw(ty); *(int64_t*)o = v; f(cont, o); del_raw(o); }
 }
 static var g_setkey;
@@ -463,6 +539,7 @@ static void unprotect(void) { nforb = 0; }
 /* ----------------------------------------------------------------------------- the release ledger and its oracle */
 static int is_registered_in(struct GC* gc, int id) { return meta[id].used && meta[id].live && meta[id].addr && route_is_heap(meta[id].route) && GC_Mem_Ptr(gc, meta[id].addr); }
 static int ownable(int u) { return usable_arg(u) && !referenced(u) && meta[u].kind != K_RTT && meta[u].kind != K_STY; }
+static int plain_pointee(int u) { return u >= 0 && u < MAXH && meta[u].used && meta[u].kind != K_BOX && meta[u].kind != K_REF; }
 static int exp_rel[MAXH], frees_before[MAXH], reg_before[MAXH], nrel0;
 static void expect_begin(void) {
   nrel0 = nrel; struct GC* gc = current(GC);
@@ -568,7 +645,8 @@ static void run_kf(const char* name) {
     if (exc == NULL) XF("hdr-del-silent", "del of a stack object raised nothing (the object is intact and not freed)");
     return;
   }
-  int which = !strcmp(name, "delraw-embedded") ? 1 : !strcmp(name, "tree-odd-key") ? 2 : 0;
+  int which = !strcmp(name, "delraw-embedded") ? 1 : !strcmp(name, "tree-odd-key") ? 2 : !strcmp(name, "delraw-embedded-tuple") ? 3 :
+              !strcmp(name, "delraw-embedded-array") ? 4 : !strcmp(name, "delraw-stack-box") ? 5 : 0;
   if (!which) { O("bad-op"); return; }
   int pfd[2]; if (pipe(pfd)) { perror("pipe"); exit(2); }
   fflush(stdout);
@@ -583,6 +661,25 @@ static void run_kf(const char* name) {
       owned_watch = ((struct String*)e)->val; owned_freed = 0;
       V_TRY(exc, del_raw(e));
       snprintf(msg, sizeof msg, "exc=%s freed=%d", v_exc_name(exc), owned_freed);
+    } else if (which == 3) {
+      var a = new_raw(Array, Tuple, tuple($I(1), $I(2)));
+      var e = get(a, $I(0)); var exc;
+      owned_watch = ((struct Tuple*)e)->items; owned_freed = 0;
+      V_TRY(exc, del_raw(e));
+      snprintf(msg, sizeof msg, "exc=%s freed=%d", v_exc_name(exc), owned_freed);
+    } else if (which == 4) {
+      var inner = new_raw(Array, Int, $I(7), $I(8));
+      var outer = new_raw(Array, Array, inner);
+      var e = get(outer, $I(0)); var exc;
+      owned_watch = ((struct Array*)e)->data; owned_freed = 0;
+      V_TRY(exc, del_raw(e));
+      snprintf(msg, sizeof msg, "exc=%s freed=%d", v_exc_name(exc), owned_freed);
+    } else if (which == 5) {
+      var p = new(Int, $I(5));
+      var b = $(Box, p); var exc;
+      owned_watch = (char*)p - HS; owned_freed = 0;
+      V_TRY(exc, del_raw(b));
+      snprintf(msg, sizeof msg, "exc=%s freed=%d val=%s", v_exc_name(exc), owned_freed, ((struct Box*)b)->val == NULL ? "null" : ((struct Box*)b)->val == p ? "kept" : "other");
     } else {
       var t = new(Tree, Odd, Int);
       struct Odd* k = new_raw(Odd); k->a = 1;
@@ -600,6 +697,17 @@ static void run_kf(const char* name) {
     O("kf delraw-embedded exc=%s v=%s", clean ? (strstr(got, "exc=ResourceError") ? "ResourceError" : "other") : "UB", (!clean || strstr(got, "freed=1")) ? "s!freed" : "sab");
     if (!clean) XF("hdr-delraw-embedded", "del_raw of a String embedded in an Array ran its destructor, then dealloc read the freed characters while refusing (sanitizer stopped the child)");
     else if (strstr(got, "freed=1")) XF("hdr-delraw-embedded", "del_raw of a String embedded in an Array freed its characters although the object was refused");
+  } else if (which == 3 || which == 4) {
+    const char* what = which == 3 ? "Tuple" : "Array"; const char* part = which == 3 ? "items" : "backing store"; char tag = which == 3 ? 't' : 'a';
+    int freed = !clean || strstr(got, "freed=1");
+    O("kf %s exc=%s v=%c%s", name, clean ? (strstr(got, "exc=ResourceError") ? "ResourceError" : "other") : "UB", tag, freed ? "!freed" : "ok");
+    if (!clean) XF("hdr-delraw-embedded", "del_raw of a %s embedded in an Array ran its destructor, then dealloc read the freed %s while refusing (sanitizer stopped the child)", what, part);
+    else if (freed) XF("hdr-delraw-embedded", "del_raw of a %s embedded in an Array freed its %s although the object was refused", what, part);
+  } else if (which == 5) {
+    int freed = clean && strstr(got, "freed=1") != NULL, cleared = clean && strstr(got, "val=null") != NULL;
+    O("kf delraw-stack-box exc=%s v=%s rel=%d", clean ? (strstr(got, "exc=ResourceError") ? "ResourceError" : "other") : "UB", !clean ? "?" : cleared ? "b-" : "b0", freed);
+    if (!clean) XF("hdr-delraw-embedded", "del_raw of a stack Box did not complete (sanitizer stopped the child)");
+    else if (freed || cleared) XF("hdr-delraw-embedded", "del_raw of a stack Box deleted what the Box points to and cleared the Box before dealloc refused the Box");
   } else {
     O("kf tree-odd-key exc=%s", clean ? "none" : "UB");
     if (!clean) XF("hdr-tree-misaligned", "Tree with a 12-byte key type: the value's header is written at a misaligned address (sanitizer stopped the child)");
@@ -618,6 +726,20 @@ static int src_scalar(int id, var* ty) {
   if (k != K_INT && k != K_STR && k != K_RTO) return 0;
   if (!magic_ok(meta[id].addr)) return 0;
   *ty = type_of(meta[id].addr); return 1;
+}
+/* (type) of a handle that `assign` can copy into a container slot (model: St.srcValue): a scalar, a Tuple whose items are
+   all fixed items, an Array of Int */
+static int src_value(int id, var* ty) {
+  if (src_scalar(id, ty)) return 1;
+  if (!is_live(id) || !magic_ok(meta[id].addr)) return 0;
+  var x = meta[id].addr;
+  if (meta[id].kind == K_TUP && type_of(x) == Tuple) {
+    struct Tuple* t = x; if (!t->items) return 0;
+    for (size_t i = 0; t->items[i] != Terminal; i++) if (!fixed_item(id_of(t->items[i]))) return 0;
+    *ty = Tuple; return 1;
+  }
+  if (meta[id].kind == K_ARR && type_of(x) == Array && iter_type(x) == Int) { *ty = Array; return 1; }
+  return 0;
 }
 static int all_int_items(int id) {
   struct Tuple* t = meta[id].addr;
@@ -648,16 +770,16 @@ static int supported_inplace(int kind_of_target /* K_* or K_STR for an embedded 
     case K_ARR: case K_LST: {
       var ety = iter_type(target);
       switch (op) {
-        case P_PUSH: case P_PUSH_AT: return src_scalar(a, &ty) && ty == ety;
+        case P_PUSH: case P_PUSH_AT: return src_value(a, &ty) && ty == ety;
         case P_POP: case P_POP_AT: return 1;
-        case P_RESIZE: if (kind_of_target == K_LST && (size_t)b > len(target) && ety == String) return 0; return 1;
+        case P_RESIZE: if (kind_of_target == K_LST && (size_t)b > len(target) && (ety == String || ety == Tuple || ety == Array)) return 0; return 1;
         case P_CONCAT: return is_live(a) && (meta[a].kind == K_ARR || meta[a].kind == K_LST) && iter_type(meta[a].addr) == ety;
       }
       return 0; }
     case K_TAB: case K_TRE: {
       var kty = key_type(target), vty = val_type(target), t2;
       switch (op) {
-        case P_SET: return src_scalar(a, &ty) && src_scalar(b, &t2) && ty == kty && t2 == vty && (kty == Int || kty == String);
+        case P_SET: return src_scalar(a, &ty) && src_value(b, &t2) && ty == kty && t2 == vty && (kty == Int || kty == String);
         case P_REM: return src_scalar(a, &ty) && ty == kty;
         case P_RESIZE: return 1;
       }
@@ -837,6 +959,11 @@ static void do_line(char** lines, size_t n, size_t li, int* recursed) {
       if (ntok != 4) BAD();
       if (strcmp(toks[3], "-")) { if (!parse_nat(toks[3], &b)) BAD(); t = b < MAXH ? (int)b : MAXH - 1; }
       if (meta[id].used) BAD();
+      if (route == R_STACK) {
+        /* $(Box, x): the struct is initialised with the pointer as it is (no Box_Assign) */
+        if (t >= 0 && !(ownable(t) && plain_pointee(t))) SKIP("unsupported");
+        *recursed = 1; birth_stack_box(lines, n, li, id, t); return;
+      }
       if (!route_is_heap(route)) SKIP("unsupported");
       if (route_is_alloc(route)) {
         if (t >= 0) SKIP("unsupported");
@@ -861,6 +988,7 @@ static void do_line(char** lines, size_t n, size_t li, int* recursed) {
       else { for (int k = 4; k < ntok; k++) { long v; if (!parse_int(toks[k], &v)) BAD(); } }
       if (meta[id].used) BAD();
       if (pe < 0 || !route_is_heap(route) || route_is_alloc(route)) SKIP("unsupported");
+      for (int k = 4; k < ntok; k++) if (!storable(ety, toks[k])) SKIP("unsupported");
       var x = by_route(route, !strcmp(op, "arr") ? Array : List, tuple(ety));
       for (int k = 4; k < ntok; k++) with_scalar(ety, toks[k], push, x);
       new_handle(id, route, !strcmp(op, "arr") ? K_ARR : K_LST, x, !strcmp(op, "arr") ? Array : List, rtk, 0); report_birth(id); return;
@@ -874,7 +1002,8 @@ static void do_line(char** lines, size_t n, size_t li, int* recursed) {
         if (pv > 0 ? !scalar_ok(vty, toks[k + 1]) : !parse_int(toks[k + 1], &v)) BAD();
       }
       if (meta[id].used) BAD();
-      if (pk < 0 || pv < 0 || rk >= 0 || !route_is_heap(route) || route_is_alloc(route)) SKIP("unsupported");
+      if (pk < 0 || pv < 0 || rk >= 0 || kty == Tuple || kty == Array || !route_is_heap(route) || route_is_alloc(route)) SKIP("unsupported");
+      for (int k = 5; k < ntok; k += 2) if (!storable(vty, toks[k + 1])) SKIP("unsupported");
       var x = by_route(route, !strcmp(op, "tab") ? Table : Tree, tuple(kty, vty));
       for (int k = 5; k < ntok; k += 2) keyed(kty, toks[k], vty, toks[k + 1], x);
       new_handle(id, route, !strcmp(op, "tab") ? K_TAB : K_TRE, x, !strcmp(op, "tab") ? Table : Tree, rv, 0); report_birth(id); return;
@@ -932,7 +1061,7 @@ static void do_line(char** lines, size_t n, size_t li, int* recursed) {
     if (a >= MAXH || !meta[a].used) BAD();
     if (!meta[a].live) SKIP("dead");
     if (meta[a].kind != K_BOX) SKIP("unsupported");
-    if (t >= 0 && !ownable(t)) SKIP("unsupported");
+    if (t >= 0 && !(ownable(t) && (meta[a].ecls == AllocHeap || plain_pointee(t)))) SKIP("unsupported");
     expect_begin();
     V_TRY(exc, ref(meta[a].addr, t >= 0 ? meta[t].addr : NULL));
     meta[a].owns = t;
@@ -996,6 +1125,13 @@ static void do_line(char** lines, size_t n, size_t li, int* recursed) {
         exp_rel[t.id] = fop_via_collector(f) ? registered : 1;
         if (exp_rel[t.id] && (fop_via_collector(f) || f == F_DEL_RAW)) expect_closure();
       }
+      int box_destruct = cl != AllocHeap && m->kind == K_BOX && f == F_DESTRUCT;
+      if (box_destruct && m->owns >= 0) {
+        /* destruct($(Box, x)) is the documented release of x (Box_Del): x is released if the collector lists it, with what it owns */
+        int v = m->owns;
+        if (meta[v].used && meta[v].live && reg_before[v]) { exp_rel[v] = 1; expect_closure(); }
+        if (meta[v].used && meta[v].live && meta[v].ecls != AllocHeap && nforb < 8) forbid((char*)meta[v].addr - HS, HS + meta[v].cap, "a stack or static object owned by a Box");
+      }
       x_is_terminal = x == Terminal;
       V_TRY(exc, call_fop(f, x));
       unprotect();
@@ -1004,7 +1140,9 @@ static void do_line(char** lines, size_t n, size_t li, int* recursed) {
       O("%s exc=%s %s rel=%s", op, v_exc_name(exc), after, rel_since(nrel0));
       if (exc) n_refused++;
       expect_check(op);
-      if (cl != AllocHeap) { oracle_refusal(op, 1, f, xty, cl, exc, before, after, 0, 0); if (m->live) oracle_handle(t.id, "after a refused release"); }
+      if (m->kind == K_BOX && m->live && ((struct Box*)x)->val == NULL) m->owns = -1;
+      if (box_destruct) { if (exc) XF("hdr-box-destruct", "destruct of a stack Box raised %s", v_exc_name(exc)); oracle_handle(t.id, "after destruct of a stack Box"); }
+      else if (cl != AllocHeap) { oracle_refusal(op, 1, f, xty, cl, exc, before, after, 0, 0); if (m->live) oracle_handle(t.id, "after a refused release"); }
       else if (exc) XF("hdr-heap-refused", "%s of a heap object raised %s", op, v_exc_name(exc));
       oracle_registry();
       return;
@@ -1014,11 +1152,17 @@ static void do_line(char** lines, size_t n, size_t li, int* recursed) {
     describe(before, before + sizeof before, t);
     var ety = magic_ok(e) ? type_of(e) : NULL;
     protect(e, elem_cap(t)); x_is_terminal = 0;
-    if (ety == String) { owned_watch = ((struct String*)e)->val; owned_freed = 0; }
+    owned_watch = NULL; owned_freed = 0;
+    if (ety == String) owned_watch = ((struct String*)e)->val;
+    if (ety == Tuple) owned_watch = ((struct Tuple*)e)->items;
+    if (ety == Array) owned_watch = ((struct Array*)e)->data;
     expect_begin();
     V_TRY(exc, call_fop(f, e));
     unprotect();
+    /* the destructor freed the block the embedded object owns: the pointer is poisoned so that the harness can go on */
     if (ety == String && owned_freed) { ((struct String*)e)->val = NULL; XF("hdr-elem-destructed", "%s of an embedded String freed its characters", op); }
+    if (ety == Tuple && owned_freed) { ((struct Tuple*)e)->items = NULL; XF("hdr-elem-destructed", "%s of an embedded Tuple freed its items", op); }
+    if (ety == Array && owned_freed) { ((struct Array*)e)->data = NULL; XF("hdr-elem-destructed", "%s of an embedded Array freed its backing store", op); }
     owned_watch = NULL;
     describe(after, after + sizeof after, t);
     O("%s exc=%s %s rel=%s", op, v_exc_name(exc), after, rel_since(nrel0));
